@@ -80,7 +80,8 @@ struct Options {
     uint64_t maxSymObj = 1 << 16;
     std::string kissat = "";
     int dedupFailures = 1;
-    std::set<std::string> knownIds;   // ids with status 'known' in known_findings.json
+    std::set<std::string> knownIds;
+    std::set<std::string> noReplace;   // substrings of function names whose __vrt__ replacement is disabled   // ids with status 'known' in known_findings.json
 };
 
 class Executor {
@@ -90,6 +91,8 @@ public:
     std::unordered_map<const llvm::GlobalValue *, uint64_t> gaddr;
     std::unordered_map<uint64_t, Function *> faddr;
     std::map<uint64_t, const llvm::GlobalVariable *> tiByAddr;
+    std::unordered_map<const Function *, Function *> redirect;   // __vrt__ replacements
+    std::set<std::string> redirectUsed; std::set<std::string> noReplace;
     std::vector<StateP> work;
     std::vector<Failure> failures;
     std::set<std::string> failureKeys;
